@@ -79,6 +79,7 @@ def gen_case(seed, n):
         return q
 
     window = r.choice([0.02, 0.1, 0.3])
+    r1 = random.Random(f"C46:uq:{seed}:{n}")
     c["window"] = window
     ngroups = 14
     for g in range(ngroups):
@@ -104,7 +105,10 @@ def gen_case(seed, n):
             kinds.append(kd)
         offs = sorted(r.uniform(0, window) for _ in range(m))
         for kd, off in zip(kinds, offs):
-            scripts.append({"t": base_t + off, "reqs": [req(user, kd, r.choice(wrongs))], "group": g})
+            pwd = r.choice(wrongs)
+            if kd == "wrong" and r1.random() < 0.3:
+                pwd = "uq-%d-%d" % (g, len(scripts))       # a wrong password that only this one request ever presents
+            scripts.append({"t": base_t + off, "reqs": [req(user, kd, pwd)], "group": g})
     for j in range(16):
         user = f"u{n}m{j}"
         scripts.append({"t": r.uniform(0, 1.5), "reqs": [req(user, r.choice(["missing", "garbled", "garbled", "nopassword", "emptypassword", "valid", "wrong"]), "bad-x")], "group": None})
@@ -300,6 +304,17 @@ def run(a, res):
                             xs, xd = results[x["i"]][1], results[x["i"]][2]
                             if any(results[i][1] <= xd and xs <= results[i][2] for i in valid_users.get(q["user"], []) if i in results):
                                 raced = True
+                    # on the unchanged tree every password that reaches the shared record resets it to Unchecked and is put to the
+                    # helper (by this request or by an earlier one with the same password) before anything can be accepted under it;
+                    # (squid queues lookups for busy helpers, so the stub may see the query only later): a wrong password accepted although the
+                    # helper was NEVER asked about exactly these credentials during the whole instance is another failure
+                    simple = kind == "wrong" and all(ch.isalnum() or ch in "-_." for ch in q["user"] + q.get("password", ""))
+                    asked = (not simple) or any(x["payload"].strip() == f"{q['user']} {q['password']}" for x in hq)
+                    if raced and not asked:
+                        res.violation("rejected-credentials-forwarded:same-user:helper-never-asked-about-these-credentials",
+                                      desc + f"; expected 407 and nothing at the origin; observed: the origin received it, client status {m.status}, and the helper was never asked about "
+                                      f"{q['user']}:{q['password']} at any time.\nhistory of this user (helper queries/replies and client requests):\n" + helper_history(q["user"]), wit)
+                        continue
                     key = ("rejected-credentials-forwarded:same-user-mixed-passwords" if raced else "rejected-credentials-forwarded:same-user:password-never-in-flight-with-valid-one") if (kind == "wrong" and mixed) else \
                           ("rejected-credentials-forwarded" if kind == "wrong" else f"{kind}-credentials-forwarded")
                     res.violation(key, desc + f"; expected 407 and nothing at the origin; observed: the origin received it (X-Verif-User={ups[0].header('X-Verif-User')!r}), client status {m.status}.\n"
